@@ -85,6 +85,13 @@ func c08Programs() []string {
 		"a := 1\nb := 2\nc := d\nprint e\nfunc f x:num y:num z:num\n    q := 1\n    r := 2\nend\n",
 		"func f\n    x := 1\n    y := 2\n    z := 3\nend\nfunc g\n    u := 1\n    v := 2\nend\non key\n    k1 := 1\n    k2 := 2\nend\nf\ng\n",
 	)
+	// nothing printed may depend on an address: every formatting verb of printf / sprintf on every kind of value
+	// (composites are pointers in the evaluator), and the panic / error texts that quote values
+	for _, verb := range []string{"%v", "%s", "%q", "%d", "%p", "%t", "%x", "%X", "%f", "%e", "%g", "%c", "%b", "%o", "%U", "%T", "%#v", "%+v", "%5v", "%-5v|", "%05d", "%%", "%z", "%!"} {
+		out = append(out, "a := [1 2]\nm := {k:1}\nn := [[1] [2]]\ny:any\ny = [3]\nprintf \""+verb+"|"+verb+"|"+verb+"|"+verb+"|"+verb+"|"+verb+"|"+verb+"\\n\" a m n y 1.5 \"s\" true\nprint (sprintf \""+verb+" "+verb+"\" m a)\n")
+	}
+	out = append(out, "a := [1 2]\nprint a [a] {k:a} (sprint a) (sprintf \"%v\" a)\nm := {k:a}\nprint m m.k (typeof m)\ntest [1] a \"arrays %v %p\" a a\n",
+		"a := [1 2]\nprint a[5]\n", "m := {k:1}\nprint m.z\n", "m := {k:[1]}\npanic (sprint m)\n", "a := [1 2]\nx:any\nx = a\nprint x.(num)\n")
 	return out
 }
 
